@@ -1,0 +1,49 @@
+#ifndef PARMCB_DETAIL_VERIF_HPP_
+#define PARMCB_DETAIL_VERIF_HPP_
+
+// Verification hooks. Everything in here is inert unless PARMCB_VERIF is defined
+// (it never is in a normal build): PARMCB_VERIF_PROBE(id) then counts how often a
+// branch was reached, so that a simulation harness can tell which paths its
+// workload exercised. With the guard off the macro expands to nothing.
+
+#ifdef PARMCB_VERIF
+
+namespace parmcb {
+    namespace verif {
+
+        enum probe_id {
+            signed_all_vertices = 0,
+            signed_hidden_edges = 1,
+            signed_single_edge = 2,
+            dijkstra_duplicate_edge = 3,
+            dijkstra_limit_prune = 4,
+            trees_candidate_repeated_edge = 5,
+            trees_candidate_limit_prune = 6,
+            iso_bad_class = 7,
+            iso_partner_lookup = 8,
+            mpi_signed_single_edge = 9,
+            mpi_signed_hidden_edges = 10,
+            mpi_signed_all_vertices = 11,
+            approx_exact_phase_cycle = 12,
+            approx_non_spanner_cycle = 13,
+            max_probes = 32
+        };
+
+        inline unsigned long* probe_table() {
+            static unsigned long table[max_probes];
+            return table;
+        }
+
+    }
+}
+
+#define PARMCB_VERIF_PROBE(id) \
+    ((void) __atomic_fetch_add(&::parmcb::verif::probe_table()[::parmcb::verif::id], 1UL, __ATOMIC_RELAXED))
+
+#else
+
+#define PARMCB_VERIF_PROBE(id) ((void) 0)
+
+#endif
+
+#endif
